@@ -4,6 +4,8 @@ import GopatchModel.Generated
 import GopatchModel.Walk
 import GopatchModel.MetaP
 import GopatchModel.Finder
+import GopatchModel.SplitPatch
+import GopatchModel.Spec.RewriteSpec
 import GopatchModel.Intervals
 import GopatchModel.AstDiff
 import GopatchModel.Spec.RefFile
@@ -243,6 +245,64 @@ def augStr : Fnd.Aug → String
   | .fakeFunc s b => s!" (func {s} {if b then 1 else 0})"
   | .dots s e n => s!" (dots {s} {e} {if n then 1 else 0})"
 
+def decodeFndToks (xs : List Sx) : List Fnd.Tok :=
+  (Sx.field xs "toks").filterMap (fun t => match t with
+    | .list [k, o, l] => some { kind := kindOfStr k.asStr, off := o.asNat, line := l.asNat }
+    | _ => none)
+
+def insertLC (a : Nat × Nat) : List (Nat × Nat) → List (Nat × Nat)
+  | [] => [a]
+  | b :: bs => if a.1 < b.1 || (a.1 == b.1 && a.2 ≤ b.2) then a :: b :: bs else b :: insertLC a bs
+
+def sortLC (l : List (Nat × Nat)) : List (Nat × Nat) := l.foldr insertLC []
+
+def versionStr (content : Sec.Bytes) (tag : String) (v : Sec.Version) : String :=
+  let ls := v.lines.map (fun lp => let p := Sec.position content lp.pos; s!" ({lp.off} {p.1} {p.2})")
+  s!"({tag} {toHex v.contents} (lines{String.join ls}))"
+
+/-- where the front end records the elisions of one version: the finder and the rewriter on go/scanner's tokens of the
+version, `posAdjuster.Pos` back into the version, the registered `LinePos` entries back into the patch file -/
+def dotsOfVersion (content : Sec.Bytes) (v : Sec.Version) (side : List Sx) : Option (List (Nat × Nat)) :=
+  if (Sx.field side "scanerr").length > 0 then none else
+  match Fnd.findTotal (decodeFndToks side) with
+  | none => none
+  | some augs =>
+      let (_, out, adjs) := Fnd.rewrite v.contents augs
+      some (sortLC (out.filterMap (fun a => match a with
+        | .dots s _ _ => some (v.positionIn content (Fnd.adjust adjs s))
+        | _ => none)))
+
+/-- the hypothesis of `elision_recorded_where_its_dots_stand` on the finder's output for one version -/
+def augsOKOfVersion (v : Sec.Version) (side : List Sx) : Option Bool :=
+  if (Sx.field side "scanerr").length > 0 then none else
+  match Fnd.findTotal (decodeFndToks side) with
+  | none => none
+  | some augs => some (Fnd.augsOKB v.contents 0 (Fnd.sortByStart augs))
+
+def dotsStr (tag : String) : Option (List (Nat × Nat)) → String
+  | none => s!"({tag} illformed)"
+  | some ps => s!"({tag}{String.join (ps.map (fun p => s!" ({p.1} {p.2})"))})"
+
+def handleSplit (id : String) (xs : List Sx) : String :=
+  let content : Sec.Bytes := match Sx.field xs "hex" with
+    | [h] => unhex h.asStr.toList
+    | _ => []
+  let uni : Sec.Uni := { letter := fun cp => ((Sx.field xs "uniletters").map Sx.asNat).contains cp,
+                         digit := fun cp => ((Sx.field xs "unidigits").map Sx.asNat).contains cp }
+  let (chs, serrs) := Sec.split uni content
+  if !serrs.isEmpty then s!"(res {id} (sectionerr))" else
+  let sides : List (List Sx × List Sx) := (Sx.field xs "sides").map (fun c => match c with
+    | .list [.atom "c", .list (.atom "m" :: ms), .list (.atom "p" :: ps)] => (ms, ps)
+    | _ => ([], []))
+  let vs := chs.map (fun c => Sec.splitPatch c.patch)
+  let splitS := vs.map (fun (m, p) => s!" (c {versionStr content "m" m} {versionStr content "p" p})")
+  let dotsS := (vs.zip sides).map (fun ((m, p), (ms, ps)) =>
+    s!" (c {dotsStr "m" (dotsOfVersion content m ms)} {dotsStr "p" (dotsOfVersion content p ps)})")
+  let hyps := (vs.zip sides).flatMap (fun ((m, p), (ms, ps)) => [augsOKOfVersion m ms, augsOKOfVersion p ps])
+  let nok := (hyps.filter (· == some true)).length
+  let nbad := (hyps.filter (· == some false)).length
+  s!"(res {id} (split{String.join splitS}) (dots{String.join dotsS}) (hyp {nok} {nbad}))"
+
 def handleAugment (id : String) (xs : List Sx) : String :=
   if (Sx.field xs "scanerr").length > 0 then s!"(res {id} (err))" else
   let src : List UInt8 := match Sx.field xs "hex" with
@@ -321,7 +381,10 @@ def handleAstdiff (id : String) (xs : List Sx) : String :=
             let held := AD.groupStarts old
             s!" (cmsmissing {(gs.filter (fun (g : Sx) => !held.contains g.asNat)).length})"
         | _ => ""
-      s!"(res {id} (changed{String.join (ch.map (fun r => s!" ({r.pos} {r.stop})"))}){snap}{bad}{decls}{missing})"
+      -- regions that start at NoPos (the elements of File.Comments are nil in a snapshot): cleanupFilePos skips an interval
+      -- that starts there; counted
+      let nopos := (w.ch.filter (fun r => r.pos == 0)).length
+      s!"(res {id} (changed{String.join (ch.map (fun r => s!" ({r.pos} {r.stop})"))}){snap}{bad}{decls}{missing} (noposregions {nopos}))"
   | _, _ => s!"(res {id} (bad-case))"
 
 def ivsOf (xs : List Sx) : List Iv := xs.filterMap (fun i => match i with
@@ -352,6 +415,7 @@ def handleLine (sc : Option Schema) (line : String) : String :=
   | .list (.atom "case" :: id :: .atom "walk" :: xs) => handleWalk id.asStr xs
   | .list (.atom "case" :: id :: .atom "front" :: xs) => handleFront id.asStr xs
   | .list (.atom "case" :: id :: .atom "augment" :: xs) => handleAugment id.asStr xs
+  | .list (.atom "case" :: id :: .atom "split" :: xs) => handleSplit id.asStr xs
   | .list (.atom "case" :: id :: .atom "comments" :: xs) => handleComments id.asStr xs
   | .list (.atom "case" :: id :: .atom "astdiff" :: xs) => handleAstdiff id.asStr xs
   | .list (.atom "case" :: id :: .atom "changelog" :: xs) => handleChangelog id.asStr xs
